@@ -283,6 +283,15 @@ RunOps(M, F, t, k, i) ==
       [] o.o = "read" ->
            LET x == IF o.a < 100 THEN o.a ELSE P.nvars + (o.a - 100)
            IN RunOps(Ev(M, [e |-> "Read", t |-> t, a |-> o.a, v |-> VC(M.sv[x])]), F, t, k, i + 1)
+      [] o.o = "ival" ->          \* BatchItemBase(...).value(): _compute -> batch.flush() directly, not through the scheduler
+           LET fid == Fid(t, k, 30 + i - 1)
+               M1 == NewItem(M, o.a, fid, t)
+               b == M1.ib[fid]
+               M2 == IF M1.bt[b].st = "pending" THEN FlushBatch(M1, b, 0) ELSE M1
+               oc == M2.out[fid]
+               M3 == Ev(M2, [e |-> "IVal", t |-> t, a |-> fid, v |-> oc.v, u |-> oc.u])
+           IN IF IsX(oc.v) THEN BodyRaise(SegEndEv(M3, t, k, 6, Val("N", 0, <<>>)), F, t, oc.v, oc.u)
+              ELSE RunOps([M3 EXCEPT !.tk[t].recvs = Append(@, oc.v)], F, t, k, i + 1)
       [] o.o = "dirty" ->
            RunOps(Ev([M EXCEPT !.reg = Upd(@, DedupKey(P, o.a), 0)], [e |-> "Dirty", t |-> t, a |-> o.a]), F, t, k, i + 1)
       [] o.o = "spawn" ->
